@@ -297,6 +297,7 @@ def check(run):
     pol4 = ['simple', 'quoted', 'quoted_rfc', 'monocolumn']
     mc_and_replay(run, 'comma-1rec-fields<=2', 'R_f2x2', 1, pol4, 44, 0)
     mc_and_replay(run, 'colon2-1rec-fields<=2', 'R_f2x2', 1, pol4, 58, 58)
+    mc_and_replay(run, 'comma-semicolon-1rec-fields<=2', 'R_f2x2', 1, ['simple', 'quoted', 'quoted_rfc'], 44, 59)
     mc_and_replay(run, 'space-whitespace', 'R_f2x2', 1, ['simple', 'quoted', 'quoted_rfc', 'whitespace'], 32, 0)
     mc_and_replay(run, 'comma-2rec-fields<=1', 'R_f1x2', 2, pol4, 44, 0)
     mc_and_replay(run, 'none-cells', 'R_none', 2, ['simple', 'quoted', 'quoted_rfc'], 44, 0)
